@@ -14,5 +14,12 @@ CHECKS = {
         "text": "Seeded random expression trees (depth <= 5, all 16 binary operators, !, -, !-, </> modifiers, defined(), three radixes with leading zeros, true/false, constants, backward/forward/dotted labels, `*`, strings with interpolation) are rendered with parentheses exactly where the documentation fixes no precedence, stored with .dword/.word/.byte/.text and compared with Python integer arithmetic restricted to the stated domain. Precedence/associativity are thereby exercised exactly as far as specified; coverage of (parent op, child op, side) pairs is reported.",
         "note": "Trusts harness/oracle/exprval.py. Assumes / and % truncate toward zero. PETSCII/screen codes judged on the unambiguous subset only. `-<name` is always parenthesised (ambiguous with the scope identifier `-`).",
     },
+    "C05": {
+        "engine": "probe",
+        "category": "exploration",
+        "technique": "runtime monitoring: round-trip oracle (Display of parsed tokens vs input) plus end-of-file marker bytes over mutation-complete and random texts",
+        "text": "Every repository source/guide snippet, every single-character insert/delete/replace (hostile alphabet incl. ) } CR NUL non-ASCII) at every position of 30 short programs covering the statement grammar, and random multi-edit mutants/concatenations are parsed and built by the real library. Whenever no diagnostic is reported the concatenated Display of the tokens must equal the text (CRLF->LF, keyword case) and a marker statement appended at the end must have left its bytes in the image - two independent observations of 'nothing silently ignored'.",
+        "note": "Judges only texts that parse and build without diagnostics (those are the executions that could ignore text silently). Keyword case-insensitivity limited to mnemonics/directives/as/from/else/encodings/x/y.",
+    },
 }
 NOT_APPLICABLE = {}
